@@ -93,6 +93,7 @@ class Engine:
         self.inline_filter = inline_filter
         self.fanout_traits = tuple(fanout_traits)
         self.enums = {}
+        self.yield_pruned = False
         self._collect_enums()
         self.stats = {'paths': 0, 'pruned_branches': 0, 'inlined_calls': 0, 'summarised_calls': 0,
                       'opaque_calls': 0, 'truncated': 0}
@@ -439,8 +440,10 @@ class Engine:
         return ('unk', rv.get('other', '?')[:60])
 
     # ------------------------------------------------------------------- run
-    def run(self, fn_path, arg_values=None):
-        """enumerate paths of the entry function; returns list[Path]"""
+    def run(self, fn_path, arg_values=None, include_loopbound=False):
+        """enumerate paths of the entry function; returns list[Path].  include_loopbound: also return the states
+        cut off at the loop bound (exit == 'loopbound'), for rules that evaluate a loop invariant"""
+        self.yield_pruned = include_loopbound
         fn = self.F.fn(fn_path) if isinstance(fn_path, str) else fn_path
         if fn is None:
             from facts import AnchorMissing
@@ -467,6 +470,8 @@ class Engine:
         for st2, rv in self.run_fn(fn, args, st):
             self.stats['paths'] += 1
             exit_kind = 'panic' if rv is PANIC else 'return'
+            if rv is PANIC and st2.pruned == -1:
+                exit_kind = 'loopbound'
             out.append(Path(st2.events, st2.facts, st2.store, rv, exit_kind, st2.trace, fn['path']))
             if len(out) >= self.max_paths:
                 self.stats['truncated'] += 1
@@ -492,6 +497,12 @@ class Engine:
             n = st.visits.get(key, 0)
             if n >= self.max_visits:
                 st.pruned += 1
+                if self.yield_pruned:
+                    # the state at the loop head after max_visits-1 full iterations: a checkpoint at which loop
+                    # invariants can be evaluated (exit kind 'loopbound'); propagated upwards like a panic
+                    st.pruned = -1
+                    st.events.append({'k': 'loopbound', 'fn': fn['path'], 'frame': frame, 'bb': bbi})
+                    yield st, PANIC
                 return
             st.visits[key] = n + 1
             st.trace.append((fn['path'], bbi))
